@@ -771,3 +771,20 @@ def r02_4(ctx):
             continue
         ctx.require(g.short in ("AshProtocol.__init__", "AshProtocol.data_received"), f"_buffer:writer:{g.short}",
                     f"receive buffer is modified in {g.short} ({kind})", func=g, node=n)
+
+
+@rule("R03.9", ["C03", "C10", "C11", "C04", "C02"], "T-FUN", floor=512)
+def r03_9(ctx):
+    """Every reset / error code is accepted: for each of the 256 code values, defined in the reset-code enum or not,
+    a well-formed RSTACK and a well-formed ERROR frame parse into a frame carrying exactly that code (an NCP may
+    report codes this library has no name for; dropping such a frame as noise would hide the failure)."""
+    px = concrete_px(ctx)
+    for cn, cb in (("RStackFrame", 0xC1), ("ErrorFrame", 0xC2)):
+        m = _cls_method(ctx, cn, "from_bytes")[1]
+        ctx.fn(m)
+        for code in range(256):
+            d = decode(ctx, px, spec_with_crc(bytes([cb, 0x02, code])))
+            o = d.value
+            ok = (d.terminal == "return" and isinstance(o, Obj) and o.cls_name == cn and int(getattr(o.fields.get("reset_code"), "value", -1)) == code)
+            ctx.require(ok, f"code:{cn}:{'defined' if ok or code in (0, 1, 2, 3, 6, 9, 11, 0x51) else 'undefined'}", f"{cn} with code 0x{code:02X} -> {d.terminal} {o!r:.80}; "
+                        "every code value must be accepted and reported", func=m)
